@@ -11,6 +11,7 @@ use std::io::Cursor;
 use std::sync::atomic::{AtomicUsize, Ordering};
 
 mod codec;
+mod conn;
 mod packets;
 
 pub struct CountingAlloc;
@@ -67,6 +68,8 @@ fn main() {
         "varlong" => codec::varlong_roundtrip(seed),
         "alloc" => codec::alloc_bound(seed),
         "packets" => packets::roundtrip(seed),
+        "locale" => conn::locale(seed),
+        "cookie_unparseable" => conn::cookie_unparseable(seed),
         "malformed" => packets::malformed(seed),
         other => {
             eprintln!("unknown scenario {other}");
